@@ -179,14 +179,17 @@ CLAIMED.update({
         design_ref="5 C14"),
     "C17": dict(
         category="other",
-        text=("Narrow claim. Bounded Kani harness on the real Divan::run_bench_entry: for any single label or ordered pair of labels (out of "
-              "three whose names are prefixes of one buffer, i.e. share their start address) left after filtering / sorting, each label is "
-              "dispatched with the index of that label in the ORIGINAL names slice and the benchmark receives the value stored at that "
-              "index. util::slice_ptr_index(slice, &slice[i]) == i (complete)."),
-        note=("BenchArgs::runner (building names and values in parallel, OnceLock, TypeId casts), args::bench's mem::zeroed() of the zero-sized "
-              "closure, macro-generated code and types x consts sharing one list are NOT covered. Five checks inside Kani's dealloc model are "
-              "disregarded in this harness (see evidence notes / DESIGN 2.3)."),
-        technique="bounded Kani harness on run_bench_entry with a hand-built argument runner",
+        text=("Narrow claim, bounded Kani harnesses on compiled repository code. (1) The real BenchArgs::runner + args::bench + "
+              "BenchArgsRunner::{bench, arg_names}, for one list of three &str labels that alias one buffer and two instantiations sharing the "
+              "BenchArgs: the list is built exactly once, both runners expose the same names slice, names[i] is the rendering of argument i, and "
+              "each instantiation's runner calls ITS OWN function with the argument at the index asked for (every index). (2) The real "
+              "Divan::run_bench_entry: for any single label or ordered pair of labels left after filtering / sorting, each label is dispatched "
+              "with the index of that label in the ORIGINAL names slice and the benchmark receives the value stored at that index. "
+              "util::slice_ptr_index(slice, &slice[i]) == i (complete)."),
+        note=("Argument types other than &str (ToString / Debug rendering, String / Box<str> / Cow<str> reuse, slices, ranges), consts and types "
+              "named by a label, and the macro-generated code are NOT covered. Kani's check on mem::zeroed() of the zero-sized closure and five "
+              "checks inside Kani's dealloc model are disregarded in these harnesses (see evidence notes / DESIGN 2.3)."),
+        technique="bounded Kani harnesses on BenchArgs::runner / args::bench and on run_bench_entry",
         design_ref="5 C17"),
     "C16": dict(
         category="other",
